@@ -233,6 +233,12 @@ fn main() {
             }
             std::process::exit(if bad == 0 { 0 } else { 2 });
         }
+        "miri-c16" => {
+            exec::install_panic_hook_verbose();
+            let seed: u64 = args.get(2).and_then(|s| s.parse().ok()).unwrap_or(1);
+            let n: u64 = args.get(3).and_then(|s| s.parse().ok()).unwrap_or(1);
+            threads::miri_c16(seed, n);
+        }
         "c16-digest" => {
             // print "<run> <digest>" for runs [from, to): load + full observation + extreme ops.
             exec::install_panic_hook();
